@@ -11,21 +11,17 @@ TRUSTED = [
 ]
 UNVERIFIED = [
     'expected provider and feed id (OraclePrice::parse per provider: Pyth / Switchboard / custom feed account checks, Anchor account parsing): not under contract',
-    'the wiring IS under contract (verus/C24_setprices.rs): Oracle::set_prices_from_remaining_accounts (loop over the tokens), update_oracle_ts_and_slot, min_oracle_slot, is_cleared - with the token map as a spec map, OraclePrice::parse_from_feed_account as an ASSUMED deterministic partial function yielding well-formed decimals, PriceMap::set as a log entry; Oracle::with_prices_opts clearing the prices on both paths (closure over Anchor accounts) is not under contract',
+    'the wiring IS under contract (verus/C24_setprices.rs): Oracle::set_prices_from_remaining_accounts (loop over the tokens), update_oracle_ts_and_slot, min_oracle_slot, is_cleared - with the token map as a spec map, OraclePrice::parse_from_feed_account as an ASSUMED deterministic partial function yielding well-formed decimals, PriceMap::set as a log entry in the wiring unit AND as its own unit (real text; the fixed_map! insert as a log of (token, SmallPrices): the map is the contract of C34), with the read-back accessors SmallPrices::{min, max, is_synthetic, is_open, to_price} and the round-trip lemma; Oracle::with_prices_opts clearing the prices on both paths (closure over Anchor accounts) is not under contract',
     'PriceValidator::try_from(&Store) reading the three limits from the store and the Clock sysvar: not under contract (keys are C16)',
     'no native replay: private items of an Anchor program crate; a failed obligation is reported with the verifier output and no-failing-input-found',
 ]
 ASSUMPTIONS = ['wf(Decimal) of the feed price and of the reference price: decimal_multiplier <= 20 (C26 postcondition)']
 MANIFEST = dict(engine='verus',
-    technique='(wiring: Verus contracts on Oracle::set_prices_from_remaining_accounts with a loop invariant over the tokens, update_oracle_ts_and_slot) Verus contracts on PriceValidator::{validate_one, merge_range, finish} and SmallPrices::from_price extracted from /repo each run, over the proved contracts of Decimal, apply_factor, Price::checked_mid',
-    text='The wiring, for token lists of any length: prices are set only on a cleared, empty oracle; EVERY stored price belongs to a configured and ENABLED token, was parsed from the feed account at the token\'s position, PASSED validate_one (not older than the maximum age after the per-feed adjustment, not too far in the future) BEFORE it was stored, and is stored exactly as parsed, in order, nothing else; the oracle becomes usable only if the spread of all adjusted timestamps (merged with what the oracle already held) is within the allowed range. Deductive proof, unbounded over all timestamps, limits, prices, reference prices and factors: validate_one returning Ok implies the price (after the per-feed timestamp adjustment) is no older than max_age, not further in the future than the allowed excess, comes from a configured provider, and with a configured deviation factor both sides are within the deviation -- rounded up to the price step -- of the explicit or mid reference; the adjusted timestamp is merged as min/max; finish returning Ok implies the timestamp spread is within the allowed range; SmallPrices::from_price accepts exactly 0 < min <= max with equal multipliers. The literal "within the configured deviation" clause is a listed KNOWN FINDING (tolerance is rounded up to the price step).',
+    technique='(wiring: Verus contracts on Oracle::set_prices_from_remaining_accounts with a loop invariant over the tokens, update_oracle_ts_and_slot; storage: PriceMap::set and the SmallPrices read-back accessors with a round-trip lemma) Verus contracts on PriceValidator::{validate_one, merge_range, finish} and SmallPrices::from_price extracted from /repo each run, over the proved contracts of Decimal, apply_factor, Price::checked_mid',
+    text='The wiring, for token lists of any length: prices are set only on a cleared, empty oracle; EVERY stored price belongs to a configured and ENABLED token, was parsed from the feed account at the token\'s position, PASSED validate_one (not older than the maximum age after the per-feed adjustment, not too far in the future) BEFORE it was stored, and is stored exactly as parsed, in order, nothing else; the oracle becomes usable only if the spread of all adjusted timestamps (merged with what the oracle already held) is within the allowed range. Deductive proof, unbounded over all timestamps, limits, prices, reference prices and factors: validate_one returning Ok implies the price (after the per-feed timestamp adjustment) is no older than max_age, not further in the future than the allowed excess, comes from a configured provider, and with a configured deviation factor both sides are within the deviation -- rounded up to the price step -- of the explicit or mid reference; the adjusted timestamp is merged as min/max; finish returning Ok implies the timestamp spread is within the allowed range; SmallPrices::from_price accepts exactly 0 < min <= max with equal multipliers; PriceMap::set stores exactly one entry for the token, only through that gate (a rejected price stores nothing and is an error), and the entry reads back through to_price as exactly the price and flags that were set. The literal "within the configured deviation" clause is a listed KNOWN FINDING (tolerance is rounded up to the price step).',
     note='Trusted: Verus+Z3, carriers, assumed std contracts. Provider/feed identity and the clearing of the oracle after use are not covered (listed).')
 
 
 def extra(res, repo, tier, seed):
-    import os, re
-    s = open(os.path.join(repo, 'programs/store/src/states/oracle/mod.rs')).read()
-    pm = open(os.path.join(repo, 'programs/store/src/states/oracle/price_map.rs')).read()
-    if not re.search(r'SmallPrices::from_price\(&price, is_synthetic, is_open\)\?', pm):
-        res.undecided.append('anchor lost: PriceMap::set no longer stores prices through SmallPrices::from_price(&price, is_synthetic, is_open)?')
-    # the validator-wiring anchors are gone: set_prices_from_remaining_accounts / update_oracle_ts_and_slot are units now
+    # no text anchors left: PriceMap::set, the read-back accessors of SmallPrices and the validator wiring are units now
+    return
